@@ -399,6 +399,7 @@ func runC15(p *core.Prog, r *core.Report) {
 		})
 		r.Check(ok, "C15.R6", "EndOfStream/index", "for each item of the index module's output, every key decoded from that item's payload gets that item's block number added to its bitmap", "Add(item.BlockNum) on indexes[key] with keys of the same item not found", p.Pos(fn.Pos()))
 	})
+	r.Guard("C15.R4", "skipFromIndex/absent-output", "no output of the index module = no key", func() { checkSkipFromIndexAbsentOutput(p, r, "C15.R4") })
 	r.Guard("C15.R4", "SkipFromKeys/own-keys", "the block's own keys", func() {
 		fn := p.Func(pkgIndex, "BlockIndex.SkipFromKeys")
 		r.Touch(core.FuncName(fn))
